@@ -1,15 +1,58 @@
-import NopModel.Lemmas.Int
-/-! C01 — round trip. -/
+import NopModel.Lemmas.RoundTrip
+/-! C01 — Round trip: Read(Write(v)) = v, consuming exactly the bytes written.
+Property theorems only; the induction lives in Lemmas/RoundTrip.lean. -/
 namespace Nop
 
-/-- Integers of every kind, written with the minimal class, read back to the same value
-consuming exactly the bytes written, from any clean source with enough budget. -/
+/-- **Round trip, every type, every value, every reader configuration.**
+For every well-formed schema `t` and well-typed value `v`: if `Write` succeeds producing
+`bs`, then `Read` into a destination holding *any* prior value, from *any* clean byte source
+that starts with `bs` — whatever follows (`rest`), whatever the reader's end-of-data error
+and `Ensure` policy (buffer / pedantic / stream / fd), inside any stack of `BoundedReader`s
+whose budgets admit `bs`, with a handle table that resolves the references the writer
+returned — succeeds, yields `v`, and consumes exactly `bs.length` bytes. -/
+theorem C01_roundtrip (t : Ty) (hwf : t.wf = true) (v : Val) (h : HChan) (bs : Bytes) (h' : HChan)
+    (prior : Val) (hv : valid t v = true) (he : encode t v h = .ok (bs, h'))
+    (s : Src) (rest : Bytes) (hc : s.fault = .none) (hb : s.bytes = bs ++ rest)
+    (hf : framesOk bs.length s.frames = true) (hr : Resolves s.handles h'.pushed) :
+    decInto t prior s = (.ok v, s.adv bs.length) :=
+  (rt t hwf).decInto prior hv he s rest hc hb hf hr
+
+/-- Several values of one type written back to back on one stream read back in order. -/
+theorem C01_stream (t : Ty) (hwf : t.wf = true) (vs : List Val) (h : HChan) (bs : Bytes) (h' : HChan)
+    (hv : ∀ v ∈ vs, valid t v = true) (he : encAll (encode t) vs h = .ok (bs, h'))
+    (s : Src) (rest : Bytes) (hc : s.fault = .none) (hb : s.bytes = bs ++ rest)
+    (hf : framesOk bs.length s.frames = true) (hr : Resolves s.handles h'.pushed) :
+    repM vs.length (dec t) s = (.ok vs, s.adv bs.length) :=
+  repM_encAll (f := dec t) (fun a h b h' hab => encode_mono t a h b h' hab) vs h bs h'
+    (fun a ha _ _ _ hab => (rt t hwf).decInto (dflt t) (hv a ha) hab) he s rest hc hb hf hr
+
+/-- Integers of every kind (the base case, stated on its own). -/
 theorem C01_int_roundtrip (k : IntKind) (i : Int) (s : Src) (rest : Bytes)
     (hr : k.inRange i = true) (hc : s.fault = .none) (hb : s.bytes = encInt k i ++ rest)
     (hf : framesOk (encInt k i).length s.frames = true) :
     decInt k s = (.ok i, s.adv (encInt k i).length) :=
   decInt_encInt hr hc hb hf
 
-example : IntKind.i16.inRange (-32768) = true := by decide
+/-- Logical buffers whose size member exceeds the capacity are refused by `Write`. -/
+theorem C01_lbuf_over_capacity (cap : Nat) (sk : IntKind) (e : Ty) (vs : List Val) (h : HChan)
+    (hover : cap < vs.length) :
+    encode (.seq (.lbuf cap sk false) e) (.list vs) h = .error .invalidContainerLength := by
+  simp [encode, lbufOver, hover]
+
+/-- K1 (known finding, machine-checked): without the `wf` side condition the format is
+ambiguous — an engaged outer `Optional` holding an empty inner one and an empty outer
+`Optional` have the same encoding. -/
+theorem C01_nested_optional_not_injective :
+    encode (.opt (.opt (.int .i32 .plain))) (.tag 1 .nil) {} =
+      encode (.opt (.opt (.int .i32 .plain))) .nil {} := by
+  simp [encode]
+
+/-! non-vacuity: a nested table value meets every hypothesis -/
+example :
+    let t : Ty := .table 7 [(1, false), (5, true), (9, false)]
+      [.seq .vector (.int .u16 .plain), .int .u8 .plain, .opt (.str 0 1)]
+    let v : Val := .list [.tag 1 (.list [.int 1, .int 300]), .nil, .tag 1 (.tag 1 (.list [.int 104]))]
+    t.wf = true ∧ valid t v = true ∧ ∃ bs h', encode t v {} = .ok (bs, h') := by
+  refine ⟨by decide, by decide, _, _, rfl⟩
 
 end Nop
